@@ -11,6 +11,7 @@ import (
 	"flag"
 	"fmt"
 	"os"
+	"regexp"
 	"runtime"
 	"runtime/debug"
 	"sort"
@@ -165,16 +166,19 @@ func main() {
 	out := fs.String("out", "", "output file")
 	stride := fs.Uint64("stride", 1, "seed stride")
 	progress := fs.String("progress", "", "progress journal file (for the watchdog)")
+	known := fs.String("known", "", "regular expression of violation signatures that are open known findings")
 	fs.Parse(os.Args[2:])
 	switch cmd {
 	case "run":
-		os.Exit(cmdRun(*prop, *tier, *seed, *stride, *count, *budget, *progress))
+		os.Exit(cmdRun(*prop, *tier, *seed, *stride, *count, *budget, *progress, *known))
 	case "replay":
 		os.Exit(cmdReplay(*file))
 	case "shrink":
 		os.Exit(cmdShrink(*file, *out, *budget))
 	case "selftest":
 		os.Exit(cmdSelftest(*prop, *tier, *seed, *count))
+	case "probe":
+		os.Exit(cmdProbe(*file))
 	case "gen":
 		e := engines[propEngine[*prop]]
 		emit(e.Gen(*prop, *seed, *tier))
@@ -193,8 +197,12 @@ func engineFor(prop string) Engine {
 	return engines[n]
 }
 
-func cmdRun(prop, tier string, seed, stride uint64, count int, budget float64, progress string) int {
+func cmdRun(prop, tier string, seed, stride uint64, count int, budget float64, progress string, known string) int {
 	e := engineFor(prop)
+	var knownRe *regexp.Regexp
+	if known != "" {
+		knownRe = regexp.MustCompile(known)
+	}
 	t0 := time.Now()
 	sum := &Summary{Type: "summary", Property: prop, Counters: map[string]int64{}, FirstSeed: seed}
 	fps := map[uint64]bool{}
@@ -238,6 +246,12 @@ func cmdRun(prop, tier string, seed, stride uint64, count int, budget float64, p
 		if len(sum.Samples) < 2 && res.Nontrivial {
 			b, _ := json.Marshal(sampleOf(spec))
 			sum.Samples = append(sum.Samples, b)
+		}
+		if res.Viol != nil && knownRe != nil && knownRe.MatchString(res.Viol.Sig) {
+			// an open known finding (listed in known_findings.json, re-created by
+			// its probe on every run): counted, not reported again
+			sum.Counters["known_finding_hits"]++
+			continue
 		}
 		if res.Viol != nil {
 			spec.Violation = res.Viol
